@@ -23,6 +23,7 @@ ASSUMPTIONS = [
     "the random source is secrets.randbelow (stubbed); an implementation that draws no randomness is still judged",
 ]
 OBLIGATIONS = {
+    "history_sequences": "operation sequences (non-initial process states) explored",
     "draw_zero": "a nonce draw of 0 was offered (must be re-drawn)",
     "retry_r_zero": "a (curve,k) with x(kG) mod n == 0 was offered",
     "retry_s_zero": "a (d,z,k) with z + r*d == 0 mod n was offered",
@@ -182,7 +183,23 @@ CASES = {"sign": chk_sign, "bytes": chk_bytes}
 def run_case(kind, case):
     if kind == "reuse":
         return chk_reuse(case)
+    if kind == "seq":
+        from vf import seqexplore
+        return seqexplore.replay(run_case, case)
     return CASES[kind](case)
+
+
+def seq_ops(job):
+    """sign+verify with keys d and n-d (same x, opposite parity) in every order, both key encodings, two flags"""
+    cv = job["curve"]
+    C = smallcurve.curve(cv)
+    ops = []
+    for d in (3, C.n - 3, 1, C.n - 1, 7):
+        for flag, pre in ((1, False), (0x83, True)):
+            ops.append(("bytes", {"curve": cv, "key": d.to_bytes(32, "big").hex(), "msg": b"seq".hex(), "flag": flag, "preimage": pre,
+                                  "draws": [(d * 5 + flag) % C.n or 1]}))
+    ops.append(("sign", {"curve": cv, "d": 3, "z": 2 * C.n + 1, "draws": [0, 4]}))
+    return ops
 
 
 def chk_reuse(case):
@@ -267,10 +284,15 @@ def jobs(tier, seed):
         js.append({"name": f"secp/sign/{sh}", "part": "real-sign", "shard": [sh, nsh], "weight": 3})
     js.append({"name": "secp/bytes", "part": "real-bytes", "weight": 6})
     js.append({"name": "secp/reuse", "part": "real-reuse", "weight": 10})
+    from vf.runner import seq_jobs
+    js += seq_jobs(4, curve=list(smallcurve.TABLE[0]), weight=4)
     return js
 
 
 def run_job(job):
+    if job["part"] == "seq":
+        from vf.runner import run_seq_job
+        return run_seq_job(job, seq_ops(job), run_case)
     acc = Acc(job)
     part = job["part"]
     seed = job["seed"]
